@@ -8,6 +8,10 @@ CHECKS = {
    technique="bounded exhaustive enumeration (every second of listed days, 4 instants of every day 1901-2099, every (start,step,duration,split) run history) against an integer-arithmetic calendar reference",
    text="Every whole second of the swept days and four instants of every day 1901-2099 are round-tripped on the real conversion functions; every (start instant, step, duration, single/split call) of the stated lattice is executed on a real truth-only Scenario and its step count, Epoch rows and TruthEphemeris rows are audited. Exhaustive over the lattice; instants between lattice days are not covered.",
    note="python datetime arithmetic is the calendar reference; fake in-process ray replaces worker processes (no scheduling freedom in truth-only runs)"),
+ "C08": dict(level="model_checking", design="§2.1, §3 C08",
+   technique="explicit-state exploration of job completion orders (stateless replay per schedule over a fake in-process ray, state merging at join barriers) + per-state bookkeeping invariants",
+   text="For each small real network (1-3 sensors x 1-3 targets quick, up to 4x4 / 2x5 thorough; Munkres, greedy, all-visible, seeded random; 2-3 steps) every completion order of every parallel job batch (propagate, predict, reward, task execution, update) of the real Scenario.stepForward is replayed on a fresh scenario (all n! orders up to n=5 quick / 6 thorough, <=2 inversions beyond) and must reach the same canonical driver state (agents, filters, sensor pointing, engine matrices, record lists, every DB table) after that join and after every step; after every step of every run the engine's observation/miss lists and DB rows must equal the multiset union of the job results, each tasked pair has exactly one primary record, and tasked sensors carry the boresight/time their job reported.",
+   note="Ray modelled by verif/fakeray.py (pickled arguments/results, one finished job per wait); job results are pure functions of submissions (re-checked without memo in the thorough tier); estimates compared to 1e-9 relative because the property allows rounding differences under observation reordering; combinations of permutations in different batches are covered by the one-successor induction, not replayed"),
 }
 
 NOT_APPLICABLE = {}
